@@ -491,6 +491,22 @@ def d1_single_selector(ctx):
         if call_name(c) == "astype" and c.args and "float32" in src(c.args[0]):
             cp = kwarg(c, "copy")
             f32 = not (isinstance(cp, ast.Constant) and cp.value is False)
+            if not f32 and isinstance(c.func, ast.Attribute):
+                # astype(float32, copy=False) still yields a private array when its operand already is one: a gather with an index ARRAY (advanced indexing
+                # always copies) - the selector must be established to be an array of at least one dimension on this path
+                op = c.func.value
+                sels = _col_selectors(op) if isinstance(op, ast.Subscript) else []
+                from sa import guards as GD
+                at_g = GD.Atoms()
+                pc_g = GD.path_condition(du.cfg, du.cfg.node_for(data_stmt), at_g)
+                for sel_ in sels:
+                    nm_ = loc_name(sel_)
+                    for k_ in GD.atoms_of(pc_g):
+                        t_ = k_.replace(" ", "")
+                        if nm_ and GD.entails(pc_g, GD.Atom(k_)) is True and t_ == f"isinstance({nm_},np.ndarray)" and \
+                                any(GD.entails(pc_g, GD.Atom(k2)) is False and k2.replace(" ", "") in (f"{nm_}.ndim==0", f"0=={nm_}.ndim") or
+                                    (GD.entails(pc_g, GD.Atom(k2)) is True and k2.replace(" ", "") in (f"0<{nm_}.ndim", f"{nm_}.ndim>0")) for k2 in GD.atoms_of(pc_g)):
+                            f32 = True
         if call_name(c) == "float32":
             f32 = True
     if not f32 and id(site) in rawloc:
